@@ -2,7 +2,7 @@
    Only statements here; proofs are in Proofs/Order.v.  [uc] = "C optimizations in use". *)
 From Coq Require Import List NArith Bool ZArith Sorting.Sorted Sorting.Permutation.
 Import ListNotations.
-From ZI Require Import Lib.Str Model.Order Proofs.Order.
+From ZI Require Import Lib.Str Model.Order Proofs.Order Gen.Compare Proofs.OrderGen.
 
 (* equal exactly when (__name__, __module__) are equal *)
 Theorem C12_eq_iff_key : forall uc a b, is_iface a -> is_iface b ->
@@ -101,6 +101,22 @@ Print Assumptions C12_c_richcompare_eq_py.
 Theorem C12_binop_c_eq_py : forall uc o a b, binop uc o a b = binop false o a b.
 Proof. exact binop_uc. Qed.
 Print Assumptions C12_binop_c_eq_py.
+
+(* the kernel regenerated from interface.py on this run IS the model the theorems above are about *)
+Theorem C12_generated_compare_eq_model : forall self other,
+  compare_gen self other = compare_mixin self other.
+Proof. exact compare_gen_eq_model. Qed.
+Print Assumptions C12_generated_compare_eq_model.
+
+Theorem C12_generated_methods_eq_model : forall o self other, okind_of self = KIface ->
+  py_method o self other =
+    match o with
+    | OpLt => gen__lt self other | OpLe => gen__le self other
+    | OpGt => gen__gt self other | OpGe => gen__ge self other
+    | OpEq => gen__eq self other | OpNe => gen__ne self other
+    end.
+Proof. exact gen_py_method_iface. Qed.
+Print Assumptions C12_generated_methods_eq_model.
 
 (* non-vacuity: concrete operands meeting the hypotheses, with non-trivial answers *)
 Example C12_witness :
